@@ -34,8 +34,31 @@ def network_drivers():
 
 
 def cases(tier):
-    return [[dname, mi, tier] for dname in network_drivers()
-            for mi in range(len(D.DRIVERS[dname].models(tier)))]
+    out = []
+    for dname in network_drivers():
+        for mi in range(len(D.DRIVERS[dname].models(tier))):
+            out.append([dname, mi, tier])
+            out += [[dname, mi, tier, k]
+                    for k in range(n_mutators(dname, mi, tier))]
+    return out
+
+
+def install(mod):
+    fams = getattr(mod, "FAMILIES", None)
+    if isinstance(fams, dict):
+        fams.setdefault("inherit", fam_inherit)
+
+
+def attach(ctx):
+    if ctx.prop != "C03":
+        return
+    ctx.explore("inherit", cases(ctx.tier), chunk=1,
+                desc="measures a Network subclass inherits, on subclass "
+                "objects (fresh and after each public mutator) vs the plain "
+                "Network with the same adjacency, weights, link attributes")
+    ctx.rule += ("  inherit: every class driver of a Network subclass x "
+                 "models x {fresh, after each mutator}: every non-overridden "
+                 "Network query equals that of the plain Network.")
 
 
 def _connected(A):
@@ -54,17 +77,56 @@ def _connected(A):
 
 
 def fam_inherit(case):
-    from pyunicorn.core import Network
-    dname, mi, tier = case
+    """case = [driver, model index, tier] (fresh object) or
+    [driver, model index, tier, k] (after the k-th public mutator of the
+    driver: the object must still be a consistent Network - adjacency,
+    direction flag, embedded graph, weights)."""
+    dname, mi, tier = case[:3]
     drv = D.DRIVERS[dname]
     model = drv.models(tier)[mi]
-    cls = drv.cls()
     obj = drv.construct(model)
+    tag = ""
+    if len(case) > 3:
+        muts = drv.mutators(model)
+        if case[3] >= len(muts):
+            return {"viol": [], "evals": 0, "trivial": True}
+        label, spec = muts[case[3]]
+        try:
+            if drv.apply(obj, model, spec) is None:
+                return {"viol": [], "evals": 0, "trivial": True}
+        except Exception:   # noqa  (mutators that raise are C01's business)
+            return {"viol": [], "evals": 0, "trivial": True}
+        tag = ":after:" + spec[0]
+    return _compare_with_plain(drv, obj, dname, mi, tag)
+
+
+def n_mutators(dname, mi, tier):
+    drv = D.DRIVERS[dname]
+    try:
+        return len(drv.mutators(drv.models(tier)[mi]))
+    except Exception:   # noqa
+        return 0
+
+
+def _compare_with_plain(drv, obj, dname, mi, tag):
+    from pyunicorn.core import Network
+    cls = drv.cls()
     A = np.asarray(obj.adjacency)
-    plain = Network(adjacency=A.copy(), directed=bool(obj.directed),
-                    node_weights=np.asarray(obj.node_weights,
-                                            dtype=float).copy(),
-                    silence_level=3)
+    try:
+        plain = Network(adjacency=A.copy(), directed=bool(obj.directed),
+                        node_weights=np.asarray(obj.node_weights,
+                                                dtype=float).copy(),
+                        silence_level=3)
+    except Exception as ex:   # noqa
+        # the object's own adjacency / direction flag / node weights do not
+        # describe a network (e.g. N weights for another N)
+        return {"viol": [V(
+            "%s:inconsistent-network-state%s" % (drv.name, tag),
+            "no plain Network can be built from the object's adjacency "
+            "%s, directed=%s and %d node weights" % (
+                A.shape, obj.directed, len(np.atleast_1d(obj.node_weights))),
+            repr(ex), "a Network")], "evals": 1, "trivial": False,
+            "sig": (dname, mi, "inconsistent", tag)}
     if obj.n_links:
         for nm in obj.graph.es.attributes():
             try:
@@ -96,10 +158,11 @@ def fam_inherit(case):
             continue
         kind = "raises" if (g[0] == "exc" and e[0] != "exc") else "value"
         viol.append(V(
-            "%s.%s:inherited!=Network:%s" % (drv.name, D.qpattern(q), kind),
+            "%s.%s:inherited!=Network:%s%s" % (drv.name, D.qpattern(q), kind,
+                                               tag),
             "%s on a %s object differs from the plain Network with the same "
             "adjacency, weights and link attributes" % (D.qlabel(q),
                                                        drv.name),
             brief(g), brief(e)))
     return {"viol": viol, "evals": ev, "excluded": excl,
-            "sig": (dname, mi, ev), "trivial": False}
+            "sig": (dname, mi, ev, tag), "trivial": False}
